@@ -121,6 +121,8 @@ package main
 //@   ensures [statusLen] result == nil && svc.Spec.Type == v1.ServiceTypeLoadBalancer ==> len(svc.Status.LoadBalancer.Ingress) == len(c.ips.allocated[key].ips) && len(svc.Status.LoadBalancer.Ingress) > 0
 //@   ensures [statusIsRecord] result == nil && svc.Spec.Type == v1.ServiceTypeLoadBalancer ==> (forall i int :: 0 <= i && i < len(svc.Status.LoadBalancer.Ingress) ==> svc.Status.LoadBalancer.Ingress[i].IP == net.ipstr(c.ips.allocated[key].ips[i]))
 //@   ensures [annotation] result == nil && svc.Spec.Type == v1.ServiceTypeLoadBalancer ==> (AnnotationIPAllocateFromPool in svc.Annotations) && svc.Annotations[AnnotationIPAllocateFromPool] == c.ips.allocated[key].pool
+//@   ensures [poolHonoured] result == nil && svc.Spec.Type == v1.ServiceTypeLoadBalancer && valueForAnnotationSpec(svc) != "" && !(len(c.ips.allocated[key].ips) == 2 && svc.Spec.IPFamilyPolicy != nil && *svc.Spec.IPFamilyPolicy == v1.IPFamilyPolicyPreferDualStack) ==>
+//@       c.ips.allocated[key].pool == valueForAnnotationSpec(svc) || allocator.InNamedPool(c.ips, valueForAnnotationSpec(svc), c.ips.allocated[key].ips)
 //@   ensures [others] forall s string :: s != key ==> c.ips.allocated[s] == old(c.ips.allocated[s])
 //@   assert after Assign#1: [rec1] ret == nil ==> c.ips.allocated[key] != nil && sameSlice(c.ips.allocated[key].ips, lbIPs)
 //@   assert before isEqualIPs#1: [rec2] len(lbIPs) != 0 ==> c.ips.allocated[key] != nil && sameSlice(c.ips.allocated[key].ips, lbIPs)
@@ -132,6 +134,15 @@ package main
 //@   assert after append#2: [rec9] c.ips.allocated[key] != nil && len(c.ips.allocated[key].ips) == 2 && len(ret) == 2 && sameSlice(c.ips.allocated[key].ips[0], ret[0]) && sameSlice(c.ips.allocated[key].ips[1], ret[1])
 //@   assert before allocateIPs#1: [cleared] c.ips.allocated[key] == nil
 //@   assert after allocateIPs#1: [rec7] ret1 == nil ==> c.ips.allocated[key] != nil && sameSlice(c.ips.allocated[key].ips, ret0)
+//@   assert before isEqualIPs#1: [ph2] len(lbIPs) != 0 && valueForAnnotationSpec(svc) != "" ==> c.ips.allocated[key].pool == valueForAnnotationSpec(svc)
+//@   assert after isEqualIPs#1: [ph3] len(lbIPs) != 0 && valueForAnnotationSpec(svc) != "" ==> c.ips.allocated[key].pool == valueForAnnotationSpec(svc)
+//@   assert before AllocateFromPoolForAdditionalFamily#1: [ph4] valueForAnnotationSpec(svc) != "" ==> c.ips.allocated[key].pool == valueForAnnotationSpec(svc)
+//@   assert after AllocateFromPoolForAdditionalFamily#1: [ph5] ret1 != nil && valueForAnnotationSpec(svc) != "" ==> c.ips.allocated[key].pool == valueForAnnotationSpec(svc)
+//@   assert after allocateIPs#1: [ph7a] ret1 == nil && valueForAnnotationSpec(svc) != "" && len(WantIPs(svc)) > 0 ==> c.ips.allocated[key].pool == valueForAnnotationSpec(svc)
+//@   assert after allocateIPs#1: [ph7b] ret1 == nil && valueForAnnotationSpec(svc) != "" && len(WantIPs(svc)) == 0 ==> allocator.InNamedPool(c.ips, valueForAnnotationSpec(svc), ret0)
+//@   assert after allocateIPs#1: [ph7c] ret1 == nil && valueForAnnotationSpec(svc) != "" && len(WantIPs(svc)) == 0 ==> allocator.InNamedPool(c.ips, valueForAnnotationSpec(svc), c.ips.allocated[key].ips)
+//@   assert after allocateIPs#1: [ph7] ret1 == nil && valueForAnnotationSpec(svc) != "" ==> c.ips.allocated[key].pool == valueForAnnotationSpec(svc) || allocator.InNamedPool(c.ips, valueForAnnotationSpec(svc), c.ips.allocated[key].ips)
+//@   assert before Pool#3: [ph8] valueForAnnotationSpec(svc) != "" && !(len(c.ips.allocated[key].ips) == 2 && svc.Spec.IPFamilyPolicy != nil && *svc.Spec.IPFamilyPolicy == v1.IPFamilyPolicyPreferDualStack) ==> c.ips.allocated[key].pool == valueForAnnotationSpec(svc) || allocator.InNamedPool(c.ips, valueForAnnotationSpec(svc), c.ips.allocated[key].ips)
 //@   assert before Pool#3: [rec8] c.ips.allocated[key] != nil && len(c.ips.allocated[key].ips) == len(lbIPs) && (forall j int :: 0 <= j && j < len(lbIPs) ==> sameSlice(c.ips.allocated[key].ips[j], lbIPs[j]))
 // an allocation is released only for one of the reasons in the statement (C03: "every Service whose recorded
 // addresses are still admissible keeps exactly those addresses"): not a LoadBalancer, no configuration, no cluster
